@@ -5,10 +5,11 @@ operations executed on resume are observed through a ``Callback``, the create st
 wrapping the stage function of the plan's ``create-arrays`` pipeline inside the harness process.
 
 `CrashStore` wraps a zarr store and
-  * counts *chunk* writes (every key whose last path component is not a metadata document),
-  * when armed with ``crash_after=j`` lets exactly j chunk writes through and raises `InjectedCrash`
-    on every later write (chunk or metadata) — the "power cut" stays in effect until `disarm()`, so
-    executor retries cannot get past it,
+  * counts writes (`set` of a chunk key or of a metadata document — both are crash points; chunk keys are
+    those whose last path component is not a metadata document),
+  * when armed with ``crash_after=j`` lets exactly j writes through and raises `InjectedCrash`
+    on every later mutation — the "power cut" stays in effect until `disarm()`, so executor retries
+    cannot get past it,
   * records every mutation as an event (set / delete / delete_dir / clear) for the "no chunk is ever
     removed" oracle.
 The armed state lives in a small shared directory-less object (`State`) so copies made by zarr
@@ -47,15 +48,26 @@ class State:
     def __init__(self):
         self.lock = threading.Lock()
         self.crash_after = None    # None = never crash
-        self.chunk_sets = 0        # chunk writes let through since the last reset
+        self.sets = 0              # writes let through since the last reset
         self.crashed = False
         self.events = []           # (kind, key)
         self.recording = True
+        self.trace_gets = False    # also record ("get", key) for chunk keys
+        self.inflight = 0          # writes that passed the gate and have not reached the wrapped store yet
+
+    def __getstate__(self):
+        # the processes executor pickles the store into the workers: they get a disarmed, private copy
+        return {"crash_after": None, "sets": 0, "crashed": False, "events": [], "recording": False,
+                "trace_gets": False, "inflight": 0}
+
+    def __setstate__(self, d):
+        self.__dict__.update(d)
+        self.lock = threading.Lock()
 
     def reset(self, crash_after=None):
         with self.lock:
             self.crash_after = crash_after
-            self.chunk_sets = 0
+            self.sets = 0
             self.crashed = False
             self.events = []
 
@@ -86,28 +98,75 @@ class CrashStore(WrapperStore):
     def disarm(self):
         self.state.reset(None)
 
+    def quiesce(self, timeout=10.0):
+        """Wait until every write that passed the gate has reached the wrapped store (zarr issues the chunk writes
+        of one selection concurrently; those already admitted when the crash hits still complete)."""
+        import time
+        t0 = time.time()
+        while self.state.inflight > 0 and time.time() - t0 < timeout:
+            time.sleep(0.002)
+        return self.state.inflight == 0
+
+    def mark(self, kind, what):
+        """Append a marker event (operation / task boundaries from callbacks)."""
+        with self.state.lock:
+            self.state.events.append((kind, what))
+
     # -- mutation gate --------------------------------------------------------------------------
     def _gate(self, kind, key):
         st = self.state
         with st.lock:
             if st.crashed:
                 raise InjectedCrash(f"store is down ({kind} {key})")
-            if kind == "set" and is_chunk_key(key):
-                if st.crash_after is not None and st.chunk_sets >= st.crash_after:
+            if kind == "set":
+                if st.crash_after is not None and st.sets >= st.crash_after:
                     st.crashed = True
-                    raise InjectedCrash(f"crash before chunk write #{st.chunk_sets} ({key})")
-                st.chunk_sets += 1
+                    raise InjectedCrash(f"crash before write #{st.sets} ({key})")
+                st.sets += 1
             if st.recording:
                 st.events.append((kind, key))
 
+    async def _admitted(self, coro):
+        st = self.state
+        with st.lock:
+            st.inflight += 1
+        try:
+            await coro
+        finally:
+            with st.lock:
+                st.inflight -= 1
+
     async def set(self, key, value):
         self._gate("set", key)
-        await self._store.set(key, value)
+        await self._admitted(self._store.set(key, value))
 
     async def set_if_not_exists(self, key, value):
         if not await self._store.exists(key):
             self._gate("set", key)
-        await self._store.set_if_not_exists(key, value)
+        await self._admitted(self._store.set_if_not_exists(key, value))
+
+    def _saw_get(self, key):
+        st = self.state
+        if st.trace_gets and st.recording and is_chunk_key(key):
+            with st.lock:
+                st.events.append(("get", key))
+
+    async def get(self, key, prototype, byte_range=None):
+        self._saw_get(key)
+        return await self._store.get(key, prototype, byte_range)
+
+    async def get_partial_values(self, prototype, key_ranges):
+        key_ranges = list(key_ranges)
+        for k, _ in key_ranges:
+            self._saw_get(k)
+        return await self._store.get_partial_values(prototype, key_ranges)
+
+    async def _get_many(self, requests):
+        requests = list(requests)
+        for r in requests:
+            self._saw_get(r[0])
+        async for req in self._store._get_many(requests):
+            yield req
 
     async def _set_many(self, values):
         for k, v in values:
